@@ -81,6 +81,15 @@ def fam_c10(R, n):
             s_ = '#[logos(skip(%s, priority = 3, ignore(case)))]' % rust_str(p)
             b = '#[regex(%s, priority = 2)] B,' % rust_str('(?i:%s)' % p)
             out.append(dict(family='c10-skip', src=enum([s_], [b]), meta=dict(pattern=p.encode('utf-8').hex(), icase=True, unicode=True, pair=(0, 1))))
+    # ignore(case) covers the text a pattern takes from a subpattern too (regex and skip)
+    for sub in ['ab|c', 'k+', 'é', '[a-c]x']:
+        for shape in ['(?&s0)x', 'y(?&s0)', '(?&s0)']:
+            ref = '(?i:%s)' % shape.replace('(?&s0)', '(?u:%s)' % sub)
+            attrs = ['#[logos(subpattern s0 = %s)]' % rust_str(sub)]
+            out.append(dict(family='c10-subpattern', src=enum(attrs, ['#[regex(%s, priority = 3, ignore(case))] A,' % rust_str(shape), '#[regex(%s, priority = 2)] B,' % rust_str(ref)]),
+                            meta=dict(icase=True, unicode=True, pair=(0, 1))))
+            out.append(dict(family='c10-subpattern', src=enum(attrs + ['#[logos(skip(%s, priority = 3, ignore(case)))]' % rust_str(shape)], ['#[regex(%s, priority = 2)] B,' % rust_str(ref)]),
+                            meta=dict(icase=True, unicode=True, pair=(0, 1))))
     # every accepted spelling of the flag group means the same
     for sp in ['ignore(case,)', 'ignore( case )', 'ignore(case, case)', 'ignore(case,case,)', 'ignore(\n        case,\n    )']:
         for (w, lit) in [('select', rust_str('select')), ('Ké', rust_str('Ké'))]:
@@ -154,7 +163,7 @@ def fam_c11(R, n):
                             meta=dict(pair=(0, 1), pattern=pat, reference=ref)))
     # references from a skip pattern (both spellings), from a byte-string regex and from a pattern with ignore(case)
     for sub in ['ab|c', '[0-9]+', '(?i)k']:
-        for shape in ['(?&s0)x', 'y(?&s0)', '<(?&s0)>+']:
+        for shape in ['(?&s0)x', 'y(?&s0)', '<(?&s0)>+', '(?&s0)', '(?&s0)(?&s0)']:      # (the bare reference included: the feature alone)
             ref = shape.replace('(?&s0)', '(?u:%s)' % sub)
             attrs = ['#[logos(subpattern s0 = %s)]' % rust_str(sub)]
             out.append(dict(family='c11-skip', src=enum(attrs + ['#[logos(skip(%s, priority = 3))]' % rust_str(shape)], ['#[regex(%s, priority = 2)] B,' % rust_str(ref)]),
@@ -513,6 +522,14 @@ def fam_c18_logos(R, n):
                 src = enum(['#[logos(%s)]' % ', '.join(perm)], ['#[regex("[a-z]+")] Id,', '#[token("=")] Eq,'])
                 out.append(dict(family='c18-logos-pairs', src=src, meta=dict(group=gid, perm=list(perm))))
             gid += 1
+    # two skip items with the same literal that differ in priority / callback / spelling: both orders must end the same way
+    for (a, b) in [('skip("x+", priority = 1, callback = |_| logos::Skip)', 'skip "x+"'), ('skip("x+", callback = |_| logos::Skip)', 'skip "x+"'), ('skip("x+")', 'skip "x+"'),
+                   ('skip("x+", priority = 9)', 'skip "x+"'), ('skip("x+", priority = 1)', 'skip("x+", priority = 2)'), ('skip("k", ignore(case))', 'skip "k"'),
+                   ('skip "\\n"', 'skip("\\n", priority = 1, callback = |_| logos::Skip)')]:
+        for perm in ((a, b), (b, a)):
+            src = enum(['#[logos(%s)]' % ', '.join(perm)], ['#[regex("[a-z]+")] Id,', '#[token("=")] Eq,'])
+            out.append(dict(family='c18-logos-pairs', src=src, meta=dict(group=gid, perm=list(perm))))
+        gid += 1
     # single-valued items given twice with different values: both orders must end the same way
     for (a, b) in [('crate = logos', 'crate = ::logos'), ('crate = logos', 'crate = not_a_crate'), ('extras = MyExtras', 'extras = u8'), ('error = MyErr', 'error = OtherErr'),
                    ('utf8 = true', 'utf8 = false'), ('error = MyErr', 'error(OtherErr)'), ('subpattern ab = "a"', 'subpattern ab = "b"')]:
@@ -694,6 +711,14 @@ def fam_c19(R, n_random):
     add(enum([], ['#[regex("a{1001}{1001}{1001}")] A,']), 'reject', None, 'huge repetition (resource exhaustion)')
     for p in ['(?&nope)', 'a(?&b)']:
         add(enum([], ['#[regex(%s)] A,' % rust_str(p)]), 'reject', 'undef_subpattern')
+    # byte-string literals around the ASCII / non-ASCII border, through every path that turns the literal into regex text
+    # (case-insensitive token, regex, skip, subpattern): accepted, no panic
+    for bv in (0x00, 0x7f, 0x80, 0x81, 0xbf, 0xc2, 0xff):
+        lit = rust_bytes(bytes([0x61, bv]))
+        add(enum(['#[logos(utf8 = false)]'], ['#[token(%s, ignore(case))] A,' % lit]), 'accept', None, 'byte literal border: case-insensitive token')
+        add(enum(['#[logos(utf8 = false)]'], ['#[regex(%s)] A,' % lit]), 'accept', None, 'byte literal border: regex')
+        add(enum(['#[logos(utf8 = false)]', '#[logos(skip %s)]' % lit], ['#[token("zz")] Z,']), 'accept', None, 'byte literal border: skip')
+        add(enum(['#[logos(utf8 = false)]', '#[logos(subpattern s = %s)]' % lit], ['#[regex("q(?&s)")] A,']), 'accept', None, 'byte literal border: subpattern')
     # every rejection class in every attribute position (skip in both spellings, subpattern, byte-string literal)
     add(enum(['#[logos(skip("(?&nope)+"))]'], ['#[token("b")] B,']), 'reject', 'undef_subpattern', 'undefined subpattern in a skip')
     add(enum(['#[logos(skip "x(?&nope)")]'], ['#[token("b")] B,']), 'reject', 'undef_subpattern', 'undefined subpattern in a bare skip')
